@@ -191,7 +191,7 @@ EXTRA10 = {
  "C08": " Paths with 2-, 3- and 4-byte characters x every length x width (the cut is by bytes).",
  "C09": " Hostile strings in the header positions of the JSON layout (user-registered level name, file, tag, context string).",
  "C10": " Calls WITHOUT own fields (3 shapes x 8 hook subsets x 4 paths); the overflowing call and a late call of the async scenario go through Debug / Trace with a counting generator.",
- "C11": " Every pair of 64 (thorough 192) call sites, cold cache, fast mode, two goroutines (P<=2).",
+ "C11": " Every pair of 64 (thorough 192) call sites through Refresh, and every pair of 384 (thorough 768) call sites of the exported fast lookup with irregular code sizes in front of the call, cold cache, two goroutines (P<=2).",
  "C12": " Every payload length 0..1100 and 2^k-1, 2^k, 2^k+1 (k = 11..16) through 4 logger kinds; handle identity for 9 spellings of a name.",
  "C13": " 'Issued one at a time' judged per call; two writers followed by calls of the main thread; maximum ages around 2^31 seconds and 2^63 nanoseconds (keep for ever).",
  "C14": " Maximum ages around 2^31 s / 2^63 ns; two appenders sharing a directory with different maximum ages; a relative log directory and a process that changes its working directory; removals judged by the clock at the removal.",
